@@ -70,3 +70,22 @@ Theorem C19_undecodable_feature_is_an_error : forall (A : Type) (d : option A),
   fm_decoded fm_unwrap_variant d <> Panic /\ fm_decoded 0 (@None A) = Panic.
 Proof. exact @fm_decoded_never_panics. Qed.
 Print Assumptions C19_undecodable_feature_is_an_error.
+
+(* ---- versatiles v02 decoders at byte level: a value or an error for every byte string ---- *)
+From VT Require Import Model.VTBytes Proofs.VTBytesProofs.
+Theorem C19_block_definition_total : forall l, Forall (fun b => (b < 256)%N) l -> soft (bdef_from_blob l).
+Proof. exact bdef_from_blob_soft. Qed.
+Print Assumptions C19_block_definition_total.
+Theorem C19_tile_index_total : forall l, Forall (fun b => (b < 256)%N) l -> soft (tidx_from_blob l).
+Proof. exact tidx_from_blob_soft. Qed.
+Print Assumptions C19_tile_index_total.
+(* what is accepted as a tile index has exactly one entry per 12 bytes (the reader compares this
+   count with the block's coverage before it indexes into it) *)
+Theorem C19_tile_index_count : forall l idx, tidx_from_blob l = Ok idx -> (length l = 12 * length idx)%nat.
+Proof. exact tidx_from_blob_count. Qed.
+Print Assumptions C19_tile_index_count.
+Example C19_bdef_bad_bytes :
+  bdef_from_blob [40; 0;0;0;0; 0;0;0;0; 0;0;0;0; 0;0;0;0;0;0;0;0; 0;0;0;0;0;0;0;0; 0;0;0;0]%N = Err /\
+  bdef_from_blob [9; 255;255;255;255; 0;0;0;0; 0;0;1;1; 0;0;0;0;0;0;0;0; 0;0;0;0;0;0;0;0; 0;0;0;0]%N = Err /\
+  bdef_from_blob [9; 0;0;0;1]%N = Err.
+Proof. repeat split; vm_compute; reflexivity. Qed.
